@@ -35,7 +35,7 @@ impl<'a> Eng<'a> {
         self.rep.count(&format!("workload.{kind}"));
         let ops = case.ops();
         let nontrivial = match kind {
-            "matrix" | "two-op" | "three-op" | "control-matrix" | "read-matrix" | "access-matrix" => {
+            "matrix" | "two-op" | "three-op" | "control-matrix" | "read-matrix" | "access-matrix" | "compute-matrix" => {
                 ops.iter().any(|o| !matches!(o, Op::Stack(asm::Stack::Push(_))))
             }
             _ => out.executed >= 3 && ops.iter().any(|o| !matches!(o, Op::Stack(asm::Stack::Push(_)))),
@@ -396,6 +396,50 @@ fn access_matrix(e: &mut Eng, thorough: bool) {
     }
 }
 
+/// Compute joins at the memory limit: parent memory x breadth x children's combined allocation placed just
+/// below / at / above the limit (for the children alone and for parent + children), children of different
+/// lengths, every way of ending a child (ComputeEnd, Halt, end of program), parent stacks at the limit.
+fn compute_matrix(e: &mut Eng, pools: &[usize]) {
+    let mut r = Rng::new(e.args.seed ^ 0xc0de);
+    let base = vmgen::base_case(&mut r);
+    const LIMIT: i64 = 10240;
+    for parent_mem in [0i64, 1, 7, 5000, LIMIT - 1, LIMIT] {
+        for breadth in [1i64, 2, 3, 4, 16] {
+            let room = LIMIT - parent_mem;
+            let mut totals = vec![0i64, 1, breadth, room - 1, room, room + 1, LIMIT - 1, LIMIT, LIMIT + 1];
+            totals.retain(|t| *t >= 0);
+            totals.sort();
+            totals.dedup();
+            for total in totals {
+                for ending in 0..3 {
+                    for stack_len in [2usize, 4092, 4094] {
+                        if !e.mine() {
+                            continue;
+                        }
+                        let (q, rem) = (total / breadth, total % breadth);
+                        // child i allocates q + (i < rem) words and stores its index in the last one
+                        let mut ops = vec![PUSH(breadth), COM, DUP, PUSH(rem), LT, PUSH(q), ADD, ALOC, POP];
+                        match ending {
+                            0 => ops.extend([COME, PUSH(1), POP]),
+                            1 => ops.extend([HLT, PUSH(1)]),
+                            _ => {}
+                        }
+                        let mut c = single(&ops, &base);
+                        c.memory = (0..parent_mem).map(|i| 900 + i % 7).collect();
+                        // 4092: the children's deepest stack is exactly at the limit; 4094: they overflow it
+                        c.stack = (0..stack_len as i64).map(|i| 40 + i % 5).collect();
+                        for (pi, &p) in pools.iter().enumerate() {
+                            c.pool = p;
+                            c.delay_seed = if pi == 0 { 0 } else { r.next_u64() | 1 };
+                            e.run(&c, JudgeOpts { mapped: pi == 0, lockstep: true, eval: false }, "compute-matrix");
+                        }
+                    }
+                }
+            }
+        }
+    }
+}
+
 /// Total gas of the case with an unlimited budget (exact), or None if it fails / is unspecified.
 fn exact_total(case: &VmCase) -> Option<u128> {
     let ops = case.ops();
@@ -511,7 +555,12 @@ pub fn run(args: &Args, rep: &mut Report) {
                 exhaustive_short(&mut e, 3, &[1, 7]);
             }
             operand_matrix(&mut e, thorough);
+            // boundary operands of the ops the pair matrix cannot set up: state reads (addresses, counts and
+            // result shapes at the limits) and control flow (jump distances, repeat counts, nesting at the limit)
+            read_matrix(&mut e, thorough);
+            control_matrix(&mut e, thorough);
             random_cases(&mut e, Focus::General, scale(40_000, 1_500_000), ls, &[], "random");
+            random_cases(&mut e, Focus::StateRead, scale(6_000, 200_000), ls, &[], "random-reads");
             random_cases(&mut e, Focus::Compute, scale(6_000, 200_000), ls, &[], "random-compute");
             random_cases(&mut e, Focus::Access, scale(2_000, 60_000), ls, &[], "random-access");
             byte_programs(&mut e, scale(20_000, 600_000));
@@ -534,6 +583,7 @@ pub fn run(args: &Args, rep: &mut Report) {
         }
         "C10" => {
             let pools: &[usize] = if thorough { &[1, 2, 3, 5, 8, 16] } else { &[1, 3, 8] };
+            compute_matrix(&mut e, if thorough { &[1, 4, 16] } else { &[1, 4] });
             random_cases(&mut e, Focus::Compute, scale(8_000, 300_000), ls, pools, "random-compute");
         }
         "C11" => {
